@@ -1096,4 +1096,344 @@ Section RTS.
     intros Hwf HL Hf E HF. unfold parse_statement.
     exact (Sstmt_rec st (Sstmt_all st Hwf) L F s g r HL Hf E HF HF).
   Qed.
+
+  (* ================================================================ Part C: files *)
+  Lemma skip_query_loop_ok q : forall a b c s r k, qscan a b c q = Some (false, false, false) ->
+    p_rest s = q ++ 123 :: r -> (len s < k)%nat ->
+    skip_query_loop k a b c s = ROk q (st_after s q (123 :: r)).
+  Proof.
+    induction q as [|ch q IH]; intros a b c s r k Hq E Hk; (destruct k as [|k]; [lia|]); cbn [skip_query_loop qscan] in *.
+    - injection Hq as -> -> ->. cbn [app] in E. unfold bind at 1. rewrite (peek_eq s 123 r E).
+      cbn [N.eqb Pos.eqb]. unfold ret. rewrite st_after_nil' by exact E. reflexivity.
+    - cbn [app] in E. unfold bind at 1. rewrite (peek_eq s ch _ E).
+      assert (Hstep : forall a' b' c', qscan a' b' c' q = Some (false, false, false) ->
+                (skip_unwrap 4 ;;; l <- skip_query_loop k a' b' c' ;; ret (ch :: l)) s = ROk (ch :: q) (st_after s (ch :: q) (123 :: r))).
+      { intros a' b' c' Hq'. unfold bind at 1. rewrite (skip_unwrap_eq 4 s ch _ E), advance_st_after. unfold bind at 1.
+        rewrite (IH a' b' c' _ r k Hq') by (try reflexivity; lensolve E Hk). unfold ret. rewrite st_after_app. reflexivity. }
+      destruct b; [apply Hstep; exact Hq|]. destruct a.
+      { destruct (ch =? 92); [apply Hstep; exact Hq|]. destruct ((ch =? 34) || (ch =? 10)); apply Hstep; exact Hq. }
+      destruct c; [apply Hstep; exact Hq|]. destruct (ch =? 34); [apply Hstep; exact Hq|].
+      destruct (ch =? 123); [discriminate|]. destruct (ch =? 59); apply Hstep; exact Hq.
+  Qed.
+
+  Lemma parse_query_ok q s r n idx : qscan false false false q = Some (false, false, false) ->
+    x_query X (p_off s) (p_off s + bytes q) = Some (QOk n (Some idx)) -> (1 <? n) = false ->
+    p_rest s = q ++ 123 :: r -> (len s < F)%nat ->
+    parse_query X F s = ROk (idx, (q ++ full_match_suffix) ++ [10]) (st_after s q (123 :: r)).
+  Proof.
+    intros Hq Hx Hn E HF. unfold parse_query. unfold bind at 1. unfold get_loc at 1. unfold bind at 1. unfold get_off at 1.
+    unfold bind at 1. unfold skip_query. rewrite (skip_query_loop_ok q false false false s r F Hq E HF).
+    unfold bind at 1. unfold get_off at 1. rewrite p_off_st_after, Hx, Hn. reflexivity.
+  Qed.
+
+  Definition wf_stmts' (l : list stmt) : Prop := wf_stmts l.
+
+  Lemma parse_stanza_ok q z L s r n : WfQuery X q -> wf_stmts (st_stmts z) -> WfLayout X L ->
+    x_query X (p_off s) (p_off s + bytes q) = Some (QOk n (Some (st_full_stanza_idx z))) -> (1 <? n) = false ->
+    p_rest s = (q ++ block_text tbl (sub L 1) (st_stmts z)) ++ r -> (len s < F)%nat ->
+    parse_stanza X F s =
+      ROk ({| st_stmts := block_loc tbl (sub L 1) (pos_after (p_loc s) q) (length (p_pats s)) (st_stmts z);
+              st_full_stanza_idx := st_full_stanza_idx z; st_full_file_idx := u32_max; st_start := p_loc s |},
+           (q ++ full_match_suffix) ++ [10])
+          (add_pats (stmts_pats tbl (st_stmts z)) (st_after s (q ++ block_text tbl (sub L 1) (st_stmts z)) r)).
+  Proof.
+    intros [Hq _] Hwf HL Hx Hn E HF. repeat rewrite <- app_assoc in E.
+    assert (E' : p_rest s = q ++ 123 :: (G (sub L 1) 0 ++ stmts_text tbl (sub (sub L 1) 1) 0 (st_stmts z) ++ [125]) ++ r).
+    { rewrite E. unfold block_text. cbn [app]. repeat rewrite <- app_assoc. reflexivity. }
+    unfold parse_stanza. unfold bind at 1. unfold get_loc at 1. unfold bind at 1.
+    rewrite (parse_query_ok q s _ n _ Hq Hx Hn E' HF).
+    change (123 :: (G (sub L 1) 0 ++ stmts_text tbl (sub (sub L 1) 1) 0 (st_stmts z) ++ [125]) ++ r)
+      with (block_text tbl (sub L 1) (st_stmts z) ++ r).
+    unfold bind at 1. rewrite consume_whitespace_noop by (try apply block_text_no_gap; lensolve E HF).
+    unfold bind at 1.
+    rewrite (parse_render_block_lemma (st_stmts z) (sub L 1) _ r Hwf) by (try wflay; try reflexivity; lensolve E HF).
+    unfold ret. cbn [fst snd]. rewrite p_loc_st_after, p_pats_st_after, st_after_app. reflexivity.
+  Qed.
+
+  (* ---------------------------------------------------------------- items *)
+  Definition acc_add (a : facc) (it : item) : facc :=
+    match it with
+    | IGlobal g => {| a_globals := a_globals a ++ [g]; a_inherited := a_inherited a; a_shorthands := a_shorthands a; a_stanzas := a_stanzas a; a_query_source := a_query_source a |}
+    | IInherit n => {| a_globals := a_globals a; a_inherited := a_inherited a ++ [n]; a_shorthands := a_shorthands a; a_stanzas := a_stanzas a; a_query_source := a_query_source a |}
+    | IShorthand h => {| a_globals := a_globals a; a_inherited := a_inherited a; a_shorthands := a_shorthands a ++ [h]; a_stanzas := a_stanzas a; a_query_source := a_query_source a |}
+    | IStanza q z => {| a_globals := a_globals a; a_inherited := a_inherited a; a_shorthands := a_shorthands a; a_stanzas := a_stanzas a ++ [z]; a_query_source := a_query_source a ++ q ++ full_match_suffix ++ [10] |}
+    end.
+  Lemma acc_of_items_cons it l a : acc_of_items (it :: l) a = acc_of_items l (acc_add a it).
+  Proof. destruct it; reflexivity. Qed.
+
+  (* the body of one iteration of file_loop, up to the whitespace behind the item *)
+  Definition item_step (a : facc) : M facc :=
+    a' <- if_ok (consume_token t_attribute)
+            (consume_whitespace X F ;;;
+             sh <- parse_shorthand X F ;;
+             ret {| a_globals := a_globals a; a_inherited := a_inherited a;
+                    a_shorthands := a_shorthands a ++ [sh]; a_stanzas := a_stanzas a;
+                    a_query_source := a_query_source a |})
+            (if_ok (consume_token t_global)
+               (consume_whitespace X F ;;;
+                g <- parse_global X F ;;
+                ret {| a_globals := a_globals a ++ [g]; a_inherited := a_inherited a;
+                       a_shorthands := a_shorthands a; a_stanzas := a_stanzas a;
+                       a_query_source := a_query_source a |})
+               (if_ok (consume_token t_inherit)
+                  (consume_whitespace X F ;;;
+                   consume_token t_dot ;;;
+                   name <- parse_name X F w_inherit ;;
+                   ret {| a_globals := a_globals a; a_inherited := a_inherited a ++ [name];
+                          a_shorthands := a_shorthands a; a_stanzas := a_stanzas a;
+                          a_query_source := a_query_source a |})
+                  (p <- parse_stanza X F ;;
+                   ret {| a_globals := a_globals a; a_inherited := a_inherited a;
+                          a_shorthands := a_shorthands a; a_stanzas := a_stanzas a ++ [fst p];
+                          a_query_source := a_query_source a ++ snd p |}))) ;;
+    consume_whitespace X F ;;; ret a'.
+
+  (* what follows an item and its gap: the end of the file or the next item *)
+  Definition item_follow (ends_w : bool) (g : gap) (r : list N) : Prop :=
+    expr_follow X ends_w g r /\ no_comma_start r /\ no_eq_start r.
+
+  Lemma quant_text_props L q : exists c, quant_text L q = [c] /\ is_ident X c = false /\
+    (q <> QZero ->
+     ((c =? 63) = true /\ q = QOpt) \/ ((c =? 63) = false /\ (c =? 42) = true /\ q = QStar) \/
+     ((c =? 63) = false /\ (c =? 42) = false /\ (c =? 43) = true /\ q = QPlus) \/
+     ((c =? 63) = false /\ (c =? 42) = false /\ (c =? 43) = false /\ is_whitespace X c = true /\ q = QOne)).
+  Proof.
+    unfold quant_text. destruct q; try (eexists; split; [reflexivity|]; split; [reflexivity|]; intros _; tauto).
+    - destruct (l_zeros L [] mod 4)%nat as [|[|[|m]]]; eexists; (split; [reflexivity|]); (split; [reflexivity|]); intros H; congruence.
+    - destruct (l_zeros L [] mod 4)%nat as [|[|[|m]]]; eexists; (split; [reflexivity|]); (split; [reflexivity|]); intros _;
+        right; right; right; repeat split; reflexivity.
+  Qed.
+
+  Lemma parse_global_ok g0 L s g r : WfIdent X (gl_name g0) -> gl_quant g0 <> QZero -> WfLayout X L ->
+    item_follow false g r ->
+    p_rest s = gl_name g0 ++ quant_text L (gl_quant g0)
+           ++ match gl_default g0 with None => [] | Some d => G L 1 ++ [61] ++ G L 2 ++ render_string (l_esc L []) d end
+           ++ render_gap g ++ r ->
+    (len s < F)%nat ->
+    (x <- parse_global X F ;; consume_whitespace X F ;;; ret x) s =
+      ROk {| gl_name := gl_name g0; gl_quant := gl_quant g0; gl_default := gl_default g0; gl_loc := p_loc s |}
+          (st_after s (gl_name g0 ++ quant_text L (gl_quant g0)
+                        ++ match gl_default g0 with None => [] | Some d => G L 1 ++ [61] ++ G L 2 ++ render_string (l_esc L []) d end
+                        ++ render_gap g) r).
+  Proof.
+    intros Hn Hq HL [[Hg [Hr [Hd _]]] [Hc He]] E HF.
+    destruct (quant_text_props L (gl_quant g0)) as [c [Eq [Hci Hcq]]]. specialize (Hcq Hq). rewrite Eq in *.
+    set (tail := match gl_default g0 with None => [] | Some d => G L 1 ++ [61] ++ G L 2 ++ render_string (l_esc L []) d end) in *.
+    unfold parse_global. start E. unfold bind at 1. step_loc. step_name E HF.
+    (* the quantifier character *)
+    unfold bind at 1. unfold parse_quantifier. cbn [p_rest st_after app].
+    step_skip.
+    assert (Hquant : forall (K : quant -> M global) s',
+              (if c =? 63 then ret QOpt else if c =? 42 then ret QStar else if c =? 43 then ret QPlus
+               else if negb (is_whitespace X c) then (l <- get_loc ;; fail (PEExpectedQuantifier l)) else ret QOne) s' = ROk (gl_quant g0) s').
+    { intros K s'. destruct Hcq as [[H1 ->]|[[H1 [H2 ->]]|[[H1 [H2 [H3 ->]]]|[H1 [H2 [H3 [H4 ->]]]]]]]; rewrite ?H1, ?H2, ?H3, ?H4; reflexivity. }
+    rewrite (Hquant (fun _ => ret g0)). clear Hquant.
+    subst tail. destruct (gl_default g0) as [d|].
+    - normE E. normG. step_ws E HF. unfold bind at 1. unfold if_ok at 1.
+      match goal with |- context [consume_token t_eq (st_after ?s1 ?a1 ?r1)] =>
+        erewrite (consume_token_ok t_eq (st_after s1 a1 r1)) by reflexivity end.
+      rewrite st_after_app. step_ws E HF. unfold bind at 1.
+      match goal with |- context [parse_string F (st_after ?s1 ?a1 (render_string ?es ?v ++ ?rr))] =>
+        rewrite (parse_string_ok F es v (st_after s1 a1 (render_string es v ++ rr)) rr eq_refl) by lensolve E HF end.
+      rewrite st_after_app. unfold ret at 1. unfold ret at 1. step_ws E HF. unfold ret. norm. reflexivity.
+    - cbn [app] in *. step_ws E HF. unfold bind at 1. unfold if_ok at 1.
+      rewrite consume_token_fail by (cbn [p_rest st_after]; destruct r as [|c' r']; [reflexivity | apply starts_with_single_ne; exact He]).
+      unfold ret at 1. unfold ret at 1. step_ws E HF. unfold ret. norm. reflexivity.
+  Qed.
+
+  Lemma parse_shorthand_ok h L s g r : WfIdent X (sh_name h) -> WfIdent X (sh_var h) -> sh_attrs h <> [] ->
+    Forall (WfAttr X) (sh_attrs h) -> WfLayout X L ->
+    attrs_follow (attrs_ends_word (sub L 5) 0 (sh_attrs h)) g r ->
+    p_rest s = sh_name h ++ G L 1 ++ [61] ++ G L 2 ++ sh_var h ++ G L 3 ++ t_arrow2 ++ G L 4
+               ++ attrs_text (sub L 5) 0 (sh_attrs h) ++ render_gap g ++ r ->
+    (len s < F)%nat ->
+    parse_shorthand X F s =
+      ROk {| sh_name := sh_name h; sh_var := sh_var h;
+             sh_vloc := pos_after (p_loc s) (sh_name h ++ G L 1 ++ [61] ++ G L 2);
+             sh_attrs := attrs_loc (sub L 5) 0
+                           (pos_after (pos_after (p_loc s) (sh_name h ++ G L 1 ++ [61] ++ G L 2)) (sh_var h ++ G L 3 ++ t_arrow2 ++ G L 4))
+                           (sh_attrs h);
+             sh_loc := p_loc s |}
+          (st_after s (sh_name h ++ G L 1 ++ [61] ++ G L 2 ++ sh_var h ++ G L 3 ++ t_arrow2 ++ G L 4
+                       ++ attrs_text (sub L 5) 0 (sh_attrs h) ++ render_gap g) r).
+  Proof.
+    intros Hn Hv Hne Hattrs HL Hfol E HF.
+    unfold parse_shorthand. start E. unfold bind at 1. step_loc. step_name E HF. step_ws E HF. step_tok. step_ws E HF.
+    unfold bind at 1.
+    match goal with |- context [parse_unscoped_variable X F (st_after ?s0 ?acc (sh_var h ++ G ?L1 ?k1 ++ ?r0))] =>
+      rewrite (parse_unscoped_variable_ok (sh_var h) s0 acc L (l_gap L1 [k1]) r0 (sh_var h ++ G L1 k1 ++ r0) HL Hv)
+        by (try reflexivity; try follow; lensolve E HF) end.
+    step_ws E HF. step_tok.
+    assert (Hng : no_gap_start X (attrs_text (sub L 5) 0 (sh_attrs h) ++ render_gap g ++ r)).
+    { destruct (sh_attrs h) as [|a0 attrs]; [congruence|]. apply attrs_text_no_gap; assumption. }
+    step_ws E HF.
+    rewrite (parse_attributes_ok (sh_attrs h) (sub L 5) _ g r Hne Hattrs) by (try wflay; try exact Hfol; try reflexivity; lensolve E HF).
+    unfold ret. cbn [fst snd]. fin.
+  Qed.
+
+  Lemma bind_ret_swap {A B} (m : M A) (f : A -> B) s :
+    (a' <- (x <- m ;; ret (f x)) ;; consume_whitespace X F ;;; ret a') s =
+    (x <- (x <- m ;; consume_whitespace X F ;;; ret x) ;; ret (f x)) s.
+  Proof.
+    unfold bind, ret. destruct (m s) as [a s1| | | |]; try reflexivity. destruct (consume_whitespace X F s1); reflexivity.
+  Qed.
+
+  (* the first characters of an item decide the branch of the dispatch *)
+  Lemma item_step_ok it L a s g r : WfItem X tbl it -> WfLayout X L ->
+    item_follow (item_ends_word L it) g r ->
+    match it with
+    | IStanza q z => exists n, x_query X (p_off s) (p_off s + bytes q) = Some (QOk n (Some (st_full_stanza_idx z))) /\ (1 <? n) = false
+    | _ => True
+    end ->
+    p_rest s = item_text tbl L it ++ render_gap g ++ r -> (len s < F)%nat ->
+    item_step a s =
+      ROk (acc_add a (item_loc tbl L (p_loc s) (length (p_pats s)) it))
+          (add_pats (item_pats tbl it) (st_after s (item_text tbl L it ++ render_gap g) r)).
+  Proof.
+    intros Hwf HL Hfol Hq E HF. pose proof Hfol as [[Hg [Hr [Hd Hw]]] [Hc He]].
+    unfold item_step. destruct it as [g0|n|h|q z]; cbn [item_text item_loc item_pats item_ends_word acc_add WfItem] in *.
+    - (* global *)
+      destruct Hwf as [Hn Hqz]. normE E. rewrite add_pats_nil.
+      rewrite (if_ok_bind_err _ _ _ _ s _ (consume_token_fail t_attribute s ltac:(rewrite E; reflexivity))).
+      rewrite (if_ok_bind_ok _ _ _ _ s tt _ (consume_token_ok t_global s _ E)).
+      rewrite <- (st_after_nil' s _ E) at 1. rewrite st_after_app.
+      rewrite bind_assoc. step_ws E HF.
+      rewrite bind_ret_swap. unfold bind at 1.
+      rewrite (parse_global_ok g0 L _ g r Hn Hqz HL Hfol) by (try reflexivity; lensolve E HF).
+      unfold ret. fin.
+    - (* inherit *)
+      normE E. rewrite add_pats_nil. unfold bind at 1. unfold if_ok at 1.
+      rewrite consume_token_fail by (rewrite E; reflexivity).
+      unfold if_ok at 1. rewrite consume_token_fail by (rewrite E; reflexivity).
+      unfold if_ok at 1. rewrite (consume_token_ok t_inherit s _ E).
+      rewrite <- (st_after_nil' s _ E) at 1. rewrite st_after_app. step_ws E HF. step_tok. step_name E HF.
+      unfold ret at 1. step_ws E HF. unfold ret. fin.
+    - (* shorthand *)
+      destruct Hwf as [Hn [Hv [Hne Hattrs]]]. normE E. rewrite add_pats_nil. unfold bind at 1. unfold if_ok at 1.
+      rewrite (consume_token_ok t_attribute s _ E).
+      rewrite <- (st_after_nil' s _ E) at 1. rewrite st_after_app. step_ws E HF. unfold bind at 1.
+      rewrite (parse_shorthand_ok h L _ g r Hn Hv Hne Hattrs HL) by (try (destruct Hfol as [K1 [K2 K3]]; split; [split; assumption | assumption]); try reflexivity; lensolve E HF).
+      unfold ret at 1. step_ws E HF. unfold ret. fin.
+    - (* stanza *)
+      destruct Hwf as [[Hqs [Hq1 [Hq2 [Hq3 [Hq4 Hq5]]]]] Hstmts]. destruct Hq as [n [Hx Hn]].
+      assert (Hpre : forall tok, ~ In 123 tok -> starts_with tok (q ++ [123]) = false -> starts_with tok (p_rest s) = false).
+      { intros tok Hni Ht. rewrite E. unfold block_text. repeat rewrite <- app_assoc.
+        clear -Ht Hni. revert tok Ht Hni. generalize (G (sub L 1) 0 ++ stmts_text tbl (sub (sub L 1) 1) 0 (st_stmts z) ++ [125] ++ render_gap g ++ r).
+        induction q as [|c q IHq]; intros t0 tok Ht Hni; cbn [app] in *.
+        - destruct tok as [|t1 tok]; [discriminate|]. cbn [starts_with] in *.
+          replace (t1 =? 123) with false by (symmetry; apply N.eqb_neq; intros ->; apply Hni; left; reflexivity). reflexivity.
+        - destruct tok as [|t1 tok]; [discriminate|]. cbn [starts_with] in *. destruct (t1 =? c); [|reflexivity].
+          cbn [andb] in *. apply IHq; [exact Ht | intros Hin; apply Hni; right; exact Hin]. }
+      assert (Hni : forall tok, tok = t_attribute \/ tok = t_global \/ tok = t_inherit -> ~ In 123 tok).
+      { intros tok [-> | [-> | ->]] Hin; cbn in Hin; repeat (destruct Hin as [Hin|Hin]; [discriminate|]); exact Hin. }
+      unfold bind at 1. unfold if_ok at 1. rewrite consume_token_fail by (apply Hpre; [apply Hni; auto | exact Hq1]).
+      unfold if_ok at 1. rewrite consume_token_fail by (apply Hpre; [apply Hni; auto | exact Hq2]).
+      unfold if_ok at 1. rewrite consume_token_fail by (apply Hpre; [apply Hni; auto | exact Hq3]).
+      unfold bind at 1.
+      rewrite (parse_stanza_ok q z L s (render_gap g ++ r) n) by (try assumption; try (repeat split; assumption); try (rewrite E; repeat rewrite <- app_assoc; reflexivity)).
+      unfold ret at 1. cbn [fst snd]. to_base.
+      assert (E2 : p_rest s = (q ++ block_text tbl (sub L 1) (st_stmts z)) ++ render_gap g ++ r) by exact E.
+      step_ws E2 HF. unfold ret. rewrite <- !app_assoc. fin2.
+  Qed.
+
+  (* ---------------------------------------------------------------- the file loop *)
+  (* the first character of an item *)
+  Lemma item_text_head it L r : WfItem X tbl it -> exists c t,
+    item_text tbl L it ++ r = c :: t /\ no_gap_start X (c :: t) /\ c <> 61 /\ c <> 44 /\ c <> 46 /\
+    (item_starts_word X it = false -> is_ident X c = false).
+  Proof.
+    intros Hwf. destruct it as [g0|n|h|q z]; cbn [item_text item_starts_word];
+      try (eexists; eexists; split; [reflexivity|]; repeat split; try discriminate; try reflexivity).
+    destruct Hwf as [[_ [_ [_ [_ [Hng Hc]]]]] _]. destruct q as [|c q].
+    - cbn [app] in *. unfold block_text. cbn [app]. eexists; eexists; split; [reflexivity|]. repeat split; try discriminate; reflexivity.
+    - cbn [app] in *. exists c. eexists. split; [reflexivity|]. destruct Hc as [H1 [H2 H3]]. destruct Hng as [Hg1 Hg2].
+      repeat split; try assumption. auto.
+  Qed.
+
+  Lemma items_text_follow L i l ends_w g0 : Forall (WfItem X tbl) l -> WfGap X g0 ->
+    item_follow ends_w (sep ends_w (match l with it2 :: _ => item_starts_word X it2 | [] => false end) g0)
+      (items_text tbl X L i l).
+  Proof.
+    intros Hwf Hg. destruct l as [|it l]; cbn [items_text].
+    - repeat split; try exact I. + apply sep_wf; exact Hg.
+      + intros ->. apply (sep_follow X Sane); [exact Hg | reflexivity | intros _; exact I].
+    - inversion Hwf as [|? ? Hit _]; subst. repeat rewrite <- app_assoc.
+      destruct (item_text_head it (sub L (2 * i)) (Gs L (2 * i + 1) (item_ends_word (sub L (2 * i)) it) (match l with it2 :: _ => item_starts_word X it2 | [] => false end) ++ items_text tbl X L (S i) l) Hit)
+        as [c [t [Ec [Hng [H61 [H44 [H46 Hsw]]]]]]]. rewrite Ec.
+      repeat split; try assumption. + apply sep_wf; exact Hg. + apply Hng. + apply Hng.
+      + intros ->. apply (sep_follow X Sane); [exact Hg | reflexivity | exact Hsw].
+  Qed.
+
+  Lemma file_loop_ok l : forall L i a s k, Forall (WfItem X tbl) l -> WfLayout X L ->
+    queries_ok X tbl L i (p_off s) l -> p_rest s = items_text tbl X L i l ->
+    (len s < k)%nat -> (len s < F)%nat ->
+    file_loop X F k a s =
+      ROk (acc_of_items (items_loc tbl X L i (p_loc s) (length (p_pats s)) l) a)
+          (add_pats (concat (map (item_pats tbl) l)) (st_after s (items_text tbl X L i l) [])).
+  Proof.
+    induction l as [|it l IH]; intros L i a s k Hwf HL Hq E Hk HF; (destruct k as [|k]; [lia|]);
+      cbn [file_loop items_text items_loc map concat] in *.
+    - rewrite E. rewrite add_pats_nil, st_after_nil' by exact E. reflexivity.
+    - inversion Hwf as [|? ? Hit Hl]; subst. destruct Hq as [Hqi Hql].
+      set (gp := sep (item_ends_word (sub L (2 * i)) it) (match l with it2 :: _ => item_starts_word X it2 | [] => false end) (l_gap L [(2 * i + 1)%nat])) in *.
+      assert (E1 : p_rest s = item_text tbl (sub L (2 * i)) it ++ render_gap gp ++ items_text tbl X L (S i) l) by (rewrite E; reflexivity).
+      destruct (item_text_head it (sub L (2 * i)) (render_gap gp ++ items_text tbl X L (S i) l) Hit) as [c [t [Ec _]]].
+      assert (Hlen1 : (1 <= length (item_text tbl (sub L (2 * i)) it))%nat).
+      { destruct (item_text_head it (sub L (2 * i)) [] Hit) as [c' [t' [E' _]]]. rewrite app_nil_r in E'. rewrite E'. cbn. lia. }
+      rewrite E1, Ec.
+      rewrite bind_ws_assoc. fold (item_step a). unfold bind at 1.
+      rewrite (item_step_ok it (sub L (2 * i)) a s gp (items_text tbl X L (S i) l) Hit (WfLayout_sub X L (2 * i) HL)
+                 (items_text_follow L (S i) l _ _ Hl (WfLayout_gap X L (2 * i + 1) HL)))
+        by (try exact E1; try exact HF; destruct it; try exact I; exact Hqi).
+      to_base.
+      rewrite (IH L (S i) _ _ k Hl HL) by (first [ exact Hql | reflexivity | (rewrite len_st_after; unfold len in *; rewrite Ec in E1; apply (f_equal (@length N)) in Ec; rewrite E1 in Hk, HF; repeat (rewrite app_length in * || cbn [length] in * ); lia) ]).
+      rewrite acc_of_items_cons. fin2.
+  Qed.
+
+  Lemma acc_query_source l : forall a,
+    a_query_source (acc_of_items l a) = a_query_source a ++ concat (map item_query_source l).
+  Proof.
+    induction l as [|it l IH]; intros a; cbn [map concat]; [rewrite app_nil_r; reflexivity|].
+    rewrite acc_of_items_cons, IH. destruct it; cbn [acc_add a_query_source item_query_source app]; try reflexivity.
+    repeat rewrite <- app_assoc. reflexivity.
+  Qed.
+  Lemma items_loc_query_source l : forall L i p k,
+    map item_query_source (items_loc tbl X L i p k l) = map item_query_source l.
+  Proof.
+    induction l as [|it l IH]; intros L i p k; cbn [items_loc map]; [reflexivity|]. rewrite IH.
+    destruct it; reflexivity.
+  Qed.
+
+  Lemma parse_into_file_ok items L s : Forall (WfItem X tbl) items -> WfLayout X L ->
+    queries_ok X tbl (sub L 1) 0 (p_off s + bytes (G L 0)) items ->
+    x_merged X (concat (map item_query_source items)) = Some true ->
+    p_rest s = file_text tbl X L items -> (len s < F)%nat ->
+    parse_into_file X F s =
+      ROk (acc_of_items (items_loc tbl X (sub L 1) 0 (pos_after (p_loc s) (G L 0)) (length (p_pats s)) items) empty_acc)
+          (add_pats (concat (map (item_pats tbl) items)) (st_after s (file_text tbl X L items) [])).
+  Proof.
+    intros Hwf HL Hq Hm E HF. unfold file_text in *. unfold parse_into_file. start E.
+    assert (Hng : no_gap_start X (items_text tbl X (sub L 1) 0 items)).
+    { destruct (items_text_follow (sub L 1) 0 items false [] Hwf ltac:(constructor)) as [[_ [H _]] _]. exact H. }
+    step_ws E HF. unfold bind at 1.
+    rewrite (file_loop_ok items (sub L 1) 0 _ _ F Hwf) by (first [ wflay | exact Hq | reflexivity | lensolve E HF ]).
+    rewrite p_loc_st_after, p_pats_st_after.
+    rewrite acc_query_source, items_loc_query_source. cbn [a_query_source app]. rewrite Hm.
+    unfold ret. fin.
+  Qed.
 End RTS.
+
+(* ---------------------------------------------------------------- the whole file *)
+Lemma parse_render_file_lemma X tbl items L : UnicodeSane X ->
+  Forall (WfItem X tbl) items -> WfLayout X L ->
+  queries_ok X tbl (sub L 1) 0 (bytes (G L 0)) items ->
+  x_merged X (concat (map item_query_source items)) = Some true ->
+  let text := file_text tbl X L items in
+  parse X (fuel_of text) text =
+    POk (file_of_items (file_items_loc tbl X L items)) (concat (map (item_pats tbl) items)).
+Proof.
+  intros HS Hwf HL Hq Hm text. unfold parse.
+  rewrite (parse_into_file_ok X (fuel_of text) HS tbl items L (init_state text) Hwf HL Hq Hm eq_refl)
+    by (unfold len, fuel_of, init_state; cbn; lia).
+  cbn [p_pats add_pats st_after init_state]. rewrite app_nil_r, rev_involutive. reflexivity.
+Qed.
